@@ -667,6 +667,28 @@ macro_rules! bfv_impl {
                         let (a, b) = (&mut s.a, &s.b);
                         (catch(|| b.copy(f, a, to, n)).map(|_| "ok".into()), o)
                     }
+                    "wcopy" => {
+                        // the blanket `BitFieldSliceMut<W>` impl of plain word vectors (full-width
+                        // fields): src = the values of b, dst = the values of a; nothing is kept
+                        let (f, to, n) = (num(1), num(2), num(3));
+                        let o = if to > s.oa.v.len() || f > s.ob.v.len() {
+                            "panic".to_string()
+                        } else {
+                            let m = n.min(s.oa.v.len() - to).min(s.ob.v.len() - f);
+                            let mut d = s.oa.v.clone();
+                            for i in 0..m {
+                                d[to + i] = s.ob.v[f + i];
+                            }
+                            format!("ok {}", fmt_list(d))
+                        };
+                        let src: Vec<$W> = (0..s.b.len()).map(|i| s.b.get(i)).collect();
+                        let mut dst: Vec<$W> = (0..s.a.len()).map(|i| s.a.get(i)).collect();
+                        let r = catch(|| {
+                            BitFieldSliceMut::<$W>::copy(&src, f, &mut dst, to, n);
+                            fmt_list(dst.iter().map(|x| *x as u128))
+                        });
+                        (r.map(|x| format!("ok {}", x)), o)
+                    }
                     "apply" => {
                         let (ma, mc) = (val(1), val(2));
                         let mask = omask(s.oa.bw);
@@ -1277,6 +1299,9 @@ fn copy_case(ctx: &mut Ctx, wt: &str, w: usize) {
                 ctx.stat(&format!("copy:{}", k));
                 kinds.insert(k);
             }
+        }
+        if ctx.rng.chance(1, 2) {
+            exec(ctx, &mut s, &format!("wcopy {} {} {}", from, to, len));
         }
         exec(ctx, &mut s, &format!("copy {} {} {}", from, to, len));
     }
